@@ -26,7 +26,9 @@ EXPLANATION = (
     'switched on; (WIRE.1) the rescan is the section root\'s hook and gives every child without a hook one '
     'that reaches the rescan, before using the child; (FMT.1) the file writer emits the record with one '
     'fprintf to the destination\'s stream, format "%s (%s:%s) %s\\n" bound to timestamp, facility name, '
-    'severity name and message, followed by a flush - no fixed-size intermediate buffer.  Range-operator '
+    'severity name and message, followed by a flush - no fixed-size intermediate buffer; (GRD.3) the '
+    'configuration layer\'s change predicates for strings and lists (shared with C15), without which an '
+    'edited destination list is not noticed.  Range-operator '
     'semantics are NOT decided.')
 ASSUMPTIONS = ['clang 14 CFG']
 
@@ -251,4 +253,8 @@ def run(P, R, tier):
     operator_fresh(P, R)
     wiring(P, R, h)
     record_format(P, R)
+    # destinations are string (list) values: a reload reroutes only if the setters notice every change
+    from . import c15
+    from ..report import Remap
+    c15.notification(P, Remap(R, {'C15.GRD.1': 'C18.GRD.3', 'C15.MPT.1': 'C18.GRD.3'}))
     return EXPLANATION, ASSUMPTIONS
